@@ -83,6 +83,23 @@ pub fn run_c06(out: &mut Out, tier: &str, seed: u64) {
                 let s2 = kp.sign_with_defaults(m.clone()).unwrap();
                 if s2.to_vec()[..64] != ls[..] { out.hit("obj.sign.differs-from-libsodium", format!("len {}", len), json!({"len":len})); }
                 if s2.verify(&kp.public_key).is_err() { out.hit("obj.sign.verify.rejects-own", format!("len {}", len), json!({"len":len})); }
+                // every way of building the key pair gives libsodium's keys and signatures
+                {
+                    type KP = dryoc::sign::SigningKeyPair<dryoc::sign::PublicKey, dryoc::sign::SecretKey>;
+                    out.search_evaluations += 2;
+                    let k2 = guard_total(|| KP::from_secret_key(StackByteArray::<64>::from(&lsk)));
+                    match k2 {
+                        Outcome::Ok(k2) => {
+                            if k2.public_key.as_array() != &pk || k2.secret_key.as_array() != &lsk { out.hit("obj.sign.keypair.from_secret_key.differs-from-libsodium", format!("len {}", len), json!({"op":"obj.SigningKeyPair.from_secret_key","sk":hx(&lsk),"pk":hx(&pk)})); }
+                            match guard(|| k2.sign_with_defaults(m.clone())) { Outcome::Ok(sx) if sx.to_vec()[..64] == ls[..] => {}, _ => out.hit("obj.sign.keypair.from_secret_key.signature-differs", format!("len {}", len), json!({"op":"obj.SigningKeyPair.from_secret_key+sign","sk":hx(&lsk)})) }
+                        }
+                        o => out.hit("obj.sign.keypair.from_secret_key.fails", o.class().to_string(), json!({"sk":hx(&lsk)})),
+                    }
+                    match guard(|| dryoc::sign::SigningKeyPair::<dryoc::sign::PublicKey, dryoc::sign::SecretKey>::from_slices(&pk, &lsk)) {
+                        Outcome::Ok(k3) => { if k3.public_key.as_array() != &pk || k3.secret_key.as_array() != &lsk { out.hit("obj.sign.keypair.from_slices.differs", format!("len {}", len), json!({"sk":hx(&lsk)})); } }
+                        _ => out.hit("obj.sign.keypair.from_slices.fails", format!("len {}", len), json!({"sk":hx(&lsk)})),
+                    }
+                }
                 // the combined form read back through the object API: libsodium's and dryoc's own bytes
                 out.search_evaluations += 2;
                 for (who, bytes) in [("libsodium", sodium::sign_combined(&m, &lsk)), ("own", s2.to_vec())] {
